@@ -19,13 +19,14 @@ PROP = dict(
     coq_targets=["theories/C19/Props.vo", "theories/C19/Tie.vo"],
     theorems=[
         "saturating_site_exact_iff", "saturating_sites_refuted", "f2dot14_within_quantum", "f2dot14_refuted",
-        "narrow_arith_profiles_agree_iff", "checked_site_never_wraps",
-        "glyf_points_round_trip", "glyf_release_wraps_refuted", "glyf_profiles_agree_iff",
+        "narrow_arith_profiles_agree_iff", "checked_site_never_wraps", "width_class_checked",
+        "variation_instance_exact_iff",
+        "glyf_outline_never_wrapped", "glyf_outline_emitted_iff", "glyf_profiles_agree",
         "component_fallback_preserves_shape", "flattened_scale_refuted",
         "composite_totals_exact_or_rejected", "composite_totals_u32_refuted",
-        "variation_instance_exact_iff",
-        "font_faithful_when_fits", "font_profiles_agree", "font_checked_limits_reject",
-        "C19_never_wrapped_refuted", "C19_profiles_agree_refuted",
+        "font_profiles_agree", "font_profiles_agree_bounded",
+        "font_checked_sites_reject", "font_checked_limits_reject", "font_faithful_when_fits",
+        "C19_never_wrapped_refuted",
     ],
     prelude="Require Import FV.C19.Model FV.C19.Tie.\nFrom Coq Require Import List NArith ZArith QArith Bool.\nOpen Scope Z_scope.",
     harness_args=lambda tier, seed: ["--seed", str(seed), "--n", str(N[tier]), "--tier", tier],
@@ -48,16 +49,22 @@ PROP = dict(
                  "outlines are closed contours of on-curve points (no curve conversion)",
                  "composites in the font-level model have depth one; nested composites only through the flattening model",
                  "the first failing job decides the outcome; sources with several independent failures are not generated",
-                 "NaN/infinite source values are outside the model"],
+                 "NaN/infinite source values are outside the model",
+                 "the model describes /repo with the C19 repairs applied (work/patches/c19-*.diff): checked advance "
+                 "width, outline coordinates and differences, component offsets, point count, top side bearing, "
+                 "WidthClass"],
 )
 
 MANIFEST = dict(
     text="Coq theorems over a model of every narrowing step between source and binary tables as Rust executes it in "
          "each build profile (saturating float casts, wrapping integer casts, checked conversions, narrow +/-): exact "
-         "characterisation of when each site is faithful, refutations with boundary witnesses for the saturating and "
-         "wrapping sites, profile agreement iff no narrow arithmetic overflows, round trip of glyf coordinate deltas for "
-         "outlines of any size, shape preservation of the decomposition fallback, and a font-level theorem (any number "
-         "of glyphs) that a source whose values all fit is emitted faithfully and identically by both profiles. The "
+         "characterisation of when each saturating site is faithful with boundary refutations for the sites left as "
+         "known findings; for the checked sites (advance width, outline coordinates and successive differences, "
+         "component offsets, point count, top side bearing, composite totals, glyph count, WidthClass) whatever is "
+         "emitted is exact and a value that does not fit ends the build, for outlines and fonts of any size; the two "
+         "profiles produce the same outcome for every source whose composites have at most 65536 components; shape "
+         "preservation of the decomposition fallback; a font-level theorem that an emitted font is faithful when the "
+         "remaining saturating sites fit. The "
          "model is tied to the code on every run: boundary sources are compiled by a debug and by a release build of the "
          "harness, the property predicate is evaluated on the decoded fonts, the model must predict both outcomes, and "
          "the anchored files are scanned for narrowing idioms missing from the site table.",
